@@ -384,6 +384,8 @@ func TestC08(t *testing.T) {
 	}
 	for _, driver := range vlib.Drivers() {
 		c08ManyHosts(ev, driver, 100)
+		driver := driver
+		parallelCases(vlib.Scale(60, 1500), 8, func(i int) { c08PeersReadFails(ev, driver, i) })
 	}
 	finish(t, ev)
 }
